@@ -159,7 +159,7 @@ let handle (x : sx) : ostring =
       let f = formula_of_sx f in
       let pf = run_pastify (atom stl = "stl") f in
       let b k g = show_bool (run_supported (nat_of_int k) g) in
-      Printf.sprintf "SUPP %s %s %s %s | PSUPP %s %s | BF %s" (b 0 f) (b 1 f) (b 2 f) (b 3 f) (b 1 pf) (b 3 pf) (show_bool (run_bounded_future f))
+      Printf.sprintf "SUPP %s %s %s %s | PSUPP %s %s | BF %s" (b 0 f) (b 1 f) (b 2 f) (b 3 f) (show_bool (run_supported_pastified (nat_of_int 1) f pf)) (show_bool (run_supported_pastified (nat_of_int 3) f pf)) (show_bool (run_bounded_future f))
   | L [A "parse"; fe; du; L cs; A hex] ->
       let du = (match atom du with "s" -> KS | "ms" -> KMs | "us" -> KUs | _ -> KNs) in
       let cs = List.map (function L [a; b] -> (coq_string (atom a), coq_string (atom b)) | _ -> failwith "const") cs in
